@@ -218,6 +218,49 @@ def main(payload):
                         fail(key + '.worker_visible', 'option not visible inside worker block')
                     distinct.add(('thread', n, use_block, raise_in_block, main_default is None))
                     reset()
+    # 6. two threads, each reading and editing ITS OWN tree: two root copies of one template share their line objects
+    # (lazily indexed bistr).  Thread 2 starts while thread 1 is inside its first position lookup on the shared line.
+    import sys
+    import time
+    n_chars = 150_000 if payload.get('tier', 'quick') == 'quick' else 600_000
+    src = 'x = "' + '\u00e9' * n_chars + '"; zz = 1'
+
+    def script(tree, out, delay):
+        time.sleep(delay)
+        a = tree.body[0].value.loc
+        b = tree.body[1].targets[0].loc
+        tree.body[1].targets[0].replace('renamed')
+        out.append((tuple(a), tuple(b), tree.src[-20:]))
+    sw = sys.getswitchinterval()
+    sys.setswitchinterval(1e-5)
+    try:
+        t0 = time.time()
+        solo = []
+        script(FST(src, 'exec').copy(), solo, 0)
+        base = max(time.time() - t0, 0.01)
+        for frac in (0.15, 0.3, 0.45, 0.6):
+            template = FST(src, 'exec')
+            c1, c2 = template.copy(), template.copy()
+            o1, o2, errs = [], [], []
+
+            def run(t, o, d):
+                try:
+                    script(t, o, d)
+                except Exception as e:
+                    errs.append(repr(e))
+            th = [threading.Thread(target=run, args=(c1, o1, 0)), threading.Thread(target=run, args=(c2, o2, base * frac))]
+            for t in th:
+                t.start()
+            for t in th:
+                t.join()
+            ev += 1
+            distinct.add(('shared_lines', frac))
+            if errs or o1 != solo or o2 != solo:
+                fail(f'C20.B.threads.shared_lines[{frac}]', 'two threads reading and editing two different copies of one '
+                     f'tree concurrently do not obtain the results of running alone: errors {errs}, alone '
+                     f'{solo}, thread 1 {o1}, thread 2 {o2}', replayed=True)
+    finally:
+        sys.setswitchinterval(sw)
     if FST.get_options() != defaults:
         fail('C20.B.final', 'store not back to defaults at the end')
     samples.append({'case': "worker thread: with FST.options(pars=False): raise  -> worker and main stores restored"})
@@ -227,5 +270,7 @@ def main(payload):
             'rule': 'every global option x valid/invalid value table; ordered pairs of options with one bad entry via '
                     'set_options and options(); nested blocks depth<=3 x raise position x block meddling; worker '
                     'threads x {set, block, block+raise} x main default; distinct = distinct (kind, option(s), '
-                    'position/order) tuples, all non-trivial (each changes or must refuse to change the store)',
+                    'position/order) tuples, all non-trivial (each changes or must refuse to change the store); plus 4 '
+                    'timed two-thread runs on two copies of one tree sharing a long non-ASCII line (the ONLY concurrent '
+                    'execution performed; schedule not controlled)',
             'samples': samples, 'exhaustive': False, 'scope': 'see rule', 'failures': failures}
